@@ -120,6 +120,18 @@ def make_relativedelta(interp, args, kwargs):
     if args:
         raise Unsupported("relativedelta with positional arguments")
     rd = RD()
+    kwargs = dict(kwargs)
+    yday, yleap = 0, False
+    for k in ("nlyearday", "yearday"):
+        if k in kwargs:
+            yv = kwargs.pop(k)
+            if yv is None:
+                continue
+            if not isinstance(yv, int) or isinstance(yv, bool):
+                raise Unsupported("relativedelta(%s=<symbolic>)" % k)
+            if yv and not yday:
+                yday = yv
+                yleap = k == "yearday" and yv > 59
     for k, v in kwargs.items():
         if k not in RD.REL and k not in RD.ABS and k != "weeks":
             raise PyRaise("TypeError", "relativedelta() got an unexpected keyword argument %r" % k)
@@ -132,6 +144,18 @@ def make_relativedelta(interp, args, kwargs):
             setattr(rd, k, getattr(rd, k) + v if k == "days" else v)
         else:
             setattr(rd, k, v)
+    if yleap:
+        rd.leapdays = -1
+    if yday:
+        # transcribed from relativedelta.__init__: month/day of the day number in a non-leap year
+        idxs = [31, 59, 90, 120, 151, 181, 212, 243, 273, 304, 334, 366]
+        for idx, ydays in enumerate(idxs):
+            if yday <= ydays:
+                rd.month = idx + 1
+                rd.day = yday if idx == 0 else yday - idxs[idx - 1]
+                break
+        else:
+            raise PyRaise("ValueError", "invalid year day (%d)" % yday)
     if "weeks" in kwargs and "days" in kwargs:
         pass
     # _fix(): microseconds -> seconds -> minutes -> hours -> days ; months -> years
@@ -186,8 +210,11 @@ def add_rd(interp, dt, rd):
     if interp.branch(Not(okrepl)):
         raise PyRaise("ValueError", "datetime.replace out of range (relativedelta)")
     days = rd.days
-    if not (isinstance(rd.leapdays, int) and rd.leapdays == 0):
-        raise Unsupported("leapdays")
+    if not isinstance(rd.leapdays, int):
+        raise Unsupported("symbolic leapdays")
+    if rd.leapdays:
+        # `if self.leapdays and month > 2 and calendar.isleap(year): day += self.leapdays`
+        days = days + If(And(month > 2, cal.leap(year)), rd.leapdays, 0)
     if not all(isinstance(x, int) and x == 0 for x in (rd.seconds, rd.microseconds)):
         raise Unsupported("relative seconds")
     zero_time = all(isinstance(x, int) and x == 0 for x in (rd.hours, rd.minutes))
